@@ -44,7 +44,13 @@ def frame_deps(v, control=True):
 
 
 def other_deps(v):
+    """non-frame data dependences (labels such as ('pre', field), ('observer', ..), ('args', ..))"""
     return frozenset(d for d in deps_of(v) if not isinstance(d, int) and not (isinstance(d, tuple) and d and d[0] == "ctl"))
+
+
+def ctl_other_deps(v):
+    """non-frame CONTROL dependences"""
+    return frozenset(d[1] for d in deps_of(v) if isinstance(d, tuple) and len(d) == 2 and d[0] == "ctl" and not isinstance(d[1], int))
 
 
 def option_some_payload(v):
